@@ -60,4 +60,3 @@ theorem closed_form_eq_pair_sum (N : ℕ) (hN : 0 < N) (E : ℝ) (hE : E ≠ 1) 
   have := pairSum_closed N E
   field_simp
   nlinarith [this]
-#print axioms closed_form_eq_pair_sum
